@@ -181,7 +181,7 @@ def compare(case, r, m):
     if 'model_error' in m:
         return None
     for g in r['plain']:
-        if r['plain'][g] != m['plain'].get(g):
+        if muxprop.strict_ne(r['plain'][g], m['plain'].get(g)):
             return 'plain path, group %s: real=%s model=%s' % (g, str(r['plain'][g])[:300], str(m['plain'].get(g))[:300])
     return None
 
@@ -216,7 +216,7 @@ def _oracle(case, r):
         if mux_fatal:
             return ('group %s with items %s: the plain pipeline %s completes normally with %s but the multiplexed run ends with an error %s'
                     % (g, gs[g], case['term'], str(want)[:200], [o for c_ in r['chunks'] for o in c_ if 'x' in o]))
-        if outs != want:
+        if muxprop.strict_ne(outs, want):
             return ('group %s with items %s: multiplexed %s emits %s, plain emits %s'
                     % (g, gs[g], case['term'], str(outs)[:300], str(want)[:300]))
     return None
